@@ -159,7 +159,19 @@ func (f *fop) HandleEventBatch(ctx context.Context, batch []*workerpb.Event) err
 			}
 			b = append(b, oev{K: "ke", Rec: rec, J: j, Key: append([]byte{}, t.KeyedEvent.GetKey()...), Ts: t.KeyedEvent.GetTimestamp().AsTime().Unix()})
 		case *workerpb.Event_Watermark:
-			b = append(b, oev{K: "wm", Ts: t.Watermark.GetTimestamp().AsTime().UnixNano()})
+			// the handler stamps record number q with time 1000+q s; the watermark is max event time - 1 ns, read here,
+			// at delivery: value q = "everything up to record q", 0 = nothing yet, 1<<40 + .. = not of that form
+			wt := t.Watermark.GetTimestamp().AsTime()
+			var q int64
+			switch {
+			case wt.Nanosecond() == 999999999 && wt.Unix() >= 1000:
+				q = wt.Unix() + 1 - 1000
+			case wt.Equal(time.Time{}.Add(-time.Nanosecond)):
+				q = 0
+			default:
+				q = 1<<40 + wt.Unix()&0xffffffff
+			}
+			b = append(b, oev{K: "wm", Ts: q})
 		case *workerpb.Event_CheckpointBarrier:
 			b = append(b, oev{K: "bar", ID: t.CheckpointBarrier.GetCheckpointId()})
 		case *workerpb.Event_SourceComplete:
@@ -299,14 +311,15 @@ type treg struct {
 }
 type ptimer struct {
 	reg   *treg
+	idx   int // -1: the key-by batcher, i: operator i's batcher
 	slot  func()
 	setAt int
 }
 
-func (g *treg) mk() *ptimer {
+func (g *treg) mk(idx int) *ptimer {
 	g.mu.Lock()
 	defer g.mu.Unlock()
-	t := &ptimer{reg: g}
+	t := &ptimer{reg: g, idx: idx}
 	g.timers = append(g.timers, t)
 	return t
 }
@@ -331,7 +344,8 @@ func (t *ptimer) Stop() {
 	t.reg.mu.Unlock()
 }
 
-// expire commits armed callbacks (which: "" = all, new = the most recently armed, old = the least recently armed) and
+// expire commits armed callbacks (which: "" = all, new / old = the most / least recently armed, kb / ops = of the key-by
+// batcher / of the operator batchers) and
 // returns them.
 func (g *treg) expire(which string) []func() {
 	g.mu.Lock()
@@ -342,6 +356,14 @@ func (g *treg) expire(which string) []func() {
 			continue
 		}
 		switch which {
+		case "kb": // only the key-by batcher's timer
+			if t.idx == -1 {
+				sel = append(sel, t)
+			}
+		case "ops": // only the operator batchers' timers
+			if t.idx >= 0 {
+				sel = append(sel, t)
+			}
 		case "new":
 			if len(sel) == 0 || t.setAt > sel[0].setAt {
 				sel = []*ptimer{t}
@@ -427,6 +449,8 @@ type reader struct {
 	queued      int
 	seen        map[uint64]bool
 	dup         bool
+	spins       int
+	gaveUp      bool
 }
 
 func (r *reader) noticeTickLocked() {
@@ -439,6 +463,17 @@ func (r *reader) ReadEvents() ([][]byte, error) {
 	r.mu.Lock()
 	r.noticeTickLocked()
 	spin := r.ckptSeen < r.ckptReq || r.tickPending
+	if spin {
+		r.spins++
+	} else {
+		r.spins = 0
+	}
+	if r.spins > 300 {
+		// the loop's select had 300 chances to take the barrier / tick and did not: the checkpoint is not taken by the
+		// loop (or not at once); stop insisting, its position is logged wherever Checkpoint() is finally called
+		spin = false
+		r.gaveUp = true
+	}
 	r.mu.Unlock()
 	if spin { // a barrier / tick was requested: hand the loop back to its select until it has taken it
 		return nil, nil
@@ -512,7 +547,7 @@ type observed struct {
 }
 
 func runCase(p params, ops []opJ) (*observed, error) {
-	if p.NOps < 1 || p.NOps > 16 || p.KGC < p.NOps || p.KGC > 4096 || p.MaxSize < 0 || p.MaxSize > 64 {
+	if p.NOps < 1 || p.NOps > 16 || p.KGC < 1 || p.KGC > 4096 || p.MaxSize < 0 || p.MaxSize > 64 {
 		return nil, fmt.Errorf("bad params %+v", p)
 	}
 	ft := &treg{}
@@ -560,7 +595,7 @@ func runCase(p params, ops []opJ) (*observed, error) {
 		return nil, err
 	}
 	if p.Timer == "fake" {
-		sr.VerifSetBatchTimers(func(int) clocks.Timer { return ft.mk() })
+		sr.VerifSetBatchTimers(func(i int) clocks.Timer { return ft.mk(i) })
 	}
 	if err := sr.HandleAssignSplits([]*workerpb.SourceSplit{{SplitId: "s0"}, {SplitId: "s1"}, {SplitId: "s2"}}); err != nil {
 		cancel()
@@ -718,9 +753,22 @@ type eng struct{}
 
 func (eng) Name() string                   { return "runner" }
 func (eng) CoqRequire(mode string) string  { return "From Coq Require Import List NArith Bool.\nImport ListNotations.\nFrom RV Require Import Model.RunnerPipe Corr.Check_runner." }
-func (eng) CoqCaseType(mode string) string { return "Check_runner.case" }
-func (eng) CoqRun(mode string) string      { return "Check_runner.run" }
+func (eng) CoqCaseType(mode string) string {
+	if mode == "c05" {
+		return "Check_runner.case05"
+	}
+	return "Check_runner.case"
+}
+func (eng) CoqRun(mode string) string {
+	if mode == "c05" {
+		return "Check_runner.run05"
+	}
+	return "Check_runner.run"
+}
 func (eng) Rule(mode string) string {
+	if mode == "c05" {
+		return "mode c05 (routing of fan-out records through the real SourceRunner): 2..5 operators, key-group counts 1..64 incl. fewer groups than operators, harness-fired batch time-outs (MaxDelay > 0), 4..12 records each fanning out into 1..4 keyed events with random keys (length 0..12); observable: (key, operator index) of every keyed event an operator's HandleEventBatch received. Non-trivial: a record with several keys and at least two operators reached."
+	}
 	return "one real SourceRunner per case: 1..4 operators, key-group counts from the operator count to 64, MaxSize 0..6, time-outs none / one harness timer per batcher (expiry and - possibly late - delivery of the callback scripted, Stop cancels what has not expired) / real (20us..2ms), 3..40 records over 1..3 splits with 0..3 keyed events each from a small key alphabet, barriers and watermark ticks at generated positions, gated KeyEventBatch completions released oldest/newest first, gated operators. Non-trivial: at least two operators, at least 4 keyed events, and a key that occurs in two records of one split."
 }
 
@@ -787,11 +835,16 @@ func (eng) Execute(mode string, c *hx.Case) (*hx.Result, error) {
 	if eff == 0 {
 		eff = 1
 	}
+	var wmT []string
 	for _, bs := range obs.Batches {
 		var bt []string
+		var wv []string
 		for _, b := range bs {
 			var es []string
 			for _, e := range b {
+				if e.K == "wm" {
+					wv = append(wv, hx.CoqN(uint64(e.Ts)))
+				}
 				if e.K == "ke" {
 					es = append(es, fmt.Sprintf("EK %d %s", e.Rec, hx.CoqPair(hx.CoqBytes(e.Key), hx.CoqN(uint64(e.J)))))
 				} else {
@@ -812,10 +865,36 @@ func (eng) Execute(mode string, c *hx.Case) (*hx.Result, error) {
 			bt = append(bt, hx.CoqList(es, "ev"))
 		}
 		opsT = append(opsT, hx.CoqList(bt, "list ev"))
+		wmT = append(wmT, hx.CoqList(wv, "N"))
 	}
 	delayB := p.Timer == "fake" || p.Timer == "system"
-	term := fmt.Sprintf("RC %d %d %d %s %s %s %s", p.NOps, p.KGC, p.MaxSize, hx.CoqBool(delayB),
-		hx.CoqList(items, "ritem"), hx.CoqList(opsT, "list (list ev)"), hx.CoqBool(obs.Overlap || obs.TimedOut))
+	term := fmt.Sprintf("RC %d %d %d %s %s %s %s %s", p.NOps, p.KGC, p.MaxSize, hx.CoqBool(delayB),
+		hx.CoqList(items, "ritem"), hx.CoqList(opsT, "list (list ev)"), hx.CoqList(wmT, "list N"), hx.CoqBool(obs.Overlap || obs.TimedOut))
+	if mode == "c05" {
+		// routing only: every delivered keyed event as (key, operator it arrived at)
+		var kos []string
+		opsHit := map[int]bool{}
+		fan := false
+		for i, bs := range obs.Batches {
+			for _, b := range bs {
+				for _, e := range b {
+					if e.K == "ke" {
+						kos = append(kos, hx.CoqPair(hx.CoqBytes(e.Key), hx.CoqN(uint64(i))))
+						opsHit[i] = true
+					}
+				}
+			}
+		}
+		for _, it := range obs.Input {
+			if len(it.Keys) > 1 {
+				fan = true
+			}
+		}
+		t5 := fmt.Sprintf("RK %d %d %d %s", p.NOps, p.KGC, nke, hx.CoqList(kos, "list N * N"))
+		return &hx.Result{Term: t5, Nontrivial: len(opsHit) >= 2 && fan,
+			Tags: []string{fmt.Sprintf("nops:%d", p.NOps), fmt.Sprintf("operators_hit:%d", len(opsHit)), fmt.Sprintf("kgc<nops:%v", p.KGC < p.NOps), fmt.Sprintf("fanout:%v", fan)},
+			Observed: map[string]any{"delivered": len(kos), "produced": nke, "batches": obs.Batches}}, nil
+	}
 	ooo := false
 	for i := 1; i < len(obs.KBOrder); i++ {
 		if obs.KBOrder[i] < obs.KBOrder[i-1] {
@@ -865,7 +944,7 @@ func genCase(r *hx.Rand, big bool) *hx.Case {
 	case 1, 2:
 		p.MaxSize = 1
 	default:
-		p.MaxSize = r.Range(2, 6)
+		p.MaxSize = r.Range(2, 8)
 	}
 	switch r.Intn(10) {
 	case 0, 1:
@@ -1016,6 +1095,23 @@ func genCase(r *hx.Rand, big bool) *hx.Case {
 			bar++
 		}
 	}
+	// several watermark ticks with records in between, all inside operator batches that stay unsent (only the key-by
+	// batcher's time-out fires): each watermark must be delivered with the value it was stamped with when it was sequenced
+	if p.Timer == "fake" && p.MaxSize >= 4 && r.Chance(1, 2) {
+		for i := 0; i < p.NOps; i++ {
+			ops = append(ops, hx.Op(opJ{Op: "relop", I: i}))
+		}
+		ops = append(ops, hx.Op(opJ{Op: "fire"}), hx.Op(opJ{Op: "relkb", Which: "all"}), hx.Op(opJ{Op: "fire"}), hx.Op(opJ{Op: "relkb", Which: "all"}))
+		n := r.Range(2, 3)
+		for i := 0; i < n; i++ {
+			ops = append(ops, hx.Op(opJ{Op: "tick"}))
+			if i < n-1 || r.Bool() {
+				ops = append(ops, hx.Op(opJ{Op: "read", Recs: []recJ{{ID: id, Split: r.Intn(nsplits), Keys: []string{alphabet[r.Intn(nalpha)]}}}}),
+					hx.Op(opJ{Op: "fire", Which: "kb"}), hx.Op(opJ{Op: "relkb", Which: "all"}))
+				id++
+			}
+		}
+	}
 	pm := map[string]any{}
 	b, _ := json.Marshal(p)
 	json.Unmarshal(b, &pm)
@@ -1023,7 +1119,55 @@ func genCase(r *hx.Rand, big bool) *hx.Case {
 	return &hx.Case{Name: "runner", Params: pm, Ops: ops}
 }
 
+// genC05: fan-out records with random keys, flowing freely (no gates), time-outs fired by the script
+func genC05(r *hx.Rand) *hx.Case {
+	p := params{Timer: "fake", MaxSize: r.Range(1, 4), NOps: r.Range(2, 5)}
+	switch r.Intn(4) {
+	case 0:
+		p.KGC = r.Range(1, p.NOps) // as many or fewer groups than operators
+	case 1:
+		p.KGC = p.NOps + r.Intn(4)
+	default:
+		p.KGC = hx.Pick(r, []int{8, 16, 61, 64})
+	}
+	var ops []json.RawMessage
+	id := uint64(1)
+	nrec := r.Range(4, 12)
+	for i := 0; i < nrec; i++ {
+		nk := r.Range(1, 4)
+		ks := make([]string, nk)
+		for j := range ks {
+			b := make([]byte, r.Intn(13))
+			for x := range b {
+				b[x] = byte(' ' + r.Intn(95))
+			}
+			ks[j] = string(b)
+		}
+		ops = append(ops, hx.Op(opJ{Op: "read", Recs: []recJ{{ID: id, Split: 0, Keys: ks}}}))
+		id++
+		if r.Chance(1, 3) {
+			ops = append(ops, hx.Op(opJ{Op: "fire"}))
+		}
+	}
+	pm := map[string]any{}
+	b, _ := json.Marshal(p)
+	json.Unmarshal(b, &pm)
+	pm["mode"] = "c05"
+	return &hx.Case{Name: "runner-c05", Params: pm, Ops: ops}
+}
+
 func (eng) Generate(mode, tier string, r *hx.Rand) []*hx.Case {
+	if mode == "c05" {
+		n := 60
+		if tier == "thorough" {
+			n = 600
+		}
+		var cs []*hx.Case
+		for i := 0; i < n; i++ {
+			cs = append(cs, genC05(r.Fork()))
+		}
+		return cs
+	}
 	n, nbig := 260, 40
 	if tier == "thorough" {
 		n, nbig = 3000, 500
